@@ -425,6 +425,41 @@ def run_case(case, ctx):
                 why = None
         if why:
             return Outcome(ok=False, why=why)
+        # last stage: silent corruption found by a scrub, so that the recorded state holds bad marks (on stripes already scrubbed
+        # and on stripes that were only synced); status must report exactly what the content file records
+        import random
+        import damage
+        rnd = random.Random(json.dumps(case["poolpre"]) + str(len(case["prog"])))
+        if rnd.random() < 0.6:
+            cands = []
+            for nm, d in c.disks.items():
+                for f in d.files:
+                    p_ = w.full(nm.decode(), f.sub)
+                    try:
+                        st_ = os.lstat(p_)
+                    except OSError:
+                        continue
+                    if os.path.islink(p_) or st_.st_nlink != 1 or st_.st_size != f.size or st_.st_mtime_ns // 10**9 != f.mtime_sec:
+                        continue
+                    cands += [(nm.decode(), f.sub, i) for i, b in enumerate(f.blocks) if b[1] == cfparse.BLK]
+            rnd.shuffle(cands)
+            nflip = 0
+            for dn_, sub_, i_ in cands[:1 + rnd.randrange(3)]:
+                if damage.corrupt_file_block(w, dn_, sub_, i_, c.block_size, rnd, shape=rnd.choice(["bit", "block"])):
+                    nflip += 1
+            if nflip:
+                sc = w.cmd("scrub", ["-p", rnd.choice(["full", "new", "full"])])
+                if sc.timed_out:
+                    return Outcome(ok=True, inconclusive=True)
+                c = w.content_model()
+                nbad = sum(1 for v in c.info if v is not None and v.bad)
+                if nbad:
+                    classes.add("bad marks recorded by a scrub")
+                    if any(v is not None and v.bad and v.justsynced for v in c.info):
+                        classes.add("bad mark on a stripe that was never scrubbed clean")
+                why = check_status(w, c)
+                if why:
+                    return Outcome(ok=False, why="after a scrub that found silent errors: " + why)
         if ngroups:
             classes.add("duplicate groups")
         if made["stale"]:
